@@ -156,6 +156,31 @@ impl Prop for C08 {
             cfg.unset("diff-highlight");
             let mut co = color::gen_opts(t);
             co.ctx_reset = false;
+            // The user's git config may name other colours for removed/added lines
+            // (color.diff.old/new).  Both what git then emits and git's built-in red/green (a diff
+            // coloured elsewhere, `diff -u --color`) are "plain removed/added colour" to delta.
+            if t.chance(1, 5) {
+                let (old_name, old_code, new_name, new_code) = *t.pick(&[
+                    ("red bold", "1;31", "green bold", "1;32"),
+                    ("magenta", "35", "cyan", "36"),
+                    ("brightred", "91", "brightgreen", "92"),
+                    ("red reverse", "7;31", "green reverse", "7;32"),
+                    ("1", "38;5;1", "2", "38;5;2"),
+                    ("red", "31", "blue ul", "4;34"),
+                ]);
+                let section = format!("[color \"diff\"]\n\told = {}\n\tnew = {}\n", old_name, new_name);
+                cfg.gitconfig = Some(match cfg.gitconfig.take() {
+                    Some(g) => format!("{}\n{}", g, section),
+                    None => section,
+                });
+                if t.coin() {
+                    co.old = old_code;
+                    co.new = new_code;
+                    ctx.class("coloured-with-configured-color.diff.old/new");
+                } else {
+                    ctx.class("default-palette-while-color.diff.old/new-configured");
+                }
+            }
             // a CRLF file: every hunk line ends in CR (git writes it after the reset when it
             // colours); some lines also carry a carriage return inside
             let mut plain_lines = plain_lines;
